@@ -64,7 +64,9 @@ def main():
             if p.wait() != 0:
                 sys.exit('compile failed')
         binp = os.path.join(bdir, 'h.bin')
-        if subprocess.run(['g++'] + flags + objs + ['-o', binp] + list(h.get('libs', []))).returncode != 0:
+        stub = os.path.join(bdir, 'san_stub.cc')   # harnesses that hook the sanitizer runtime still link without it
+        open(stub, 'w').write('extern "C" void __sanitizer_set_death_callback(void (*)()) {}\n')
+        if subprocess.run(['g++'] + flags + objs + [stub, '-o', binp] + list(h.get('libs', []))).returncode != 0:
             sys.exit('link failed')
         out = os.path.join(bdir, 'out')
         os.makedirs(out)
